@@ -758,6 +758,11 @@ func parseContractLines(pkg, file string, lines []rawLine) (*ContractFile, error
 			}
 			pf.Pkg = pkg
 			pf.Line = l.line
+			for _, q := range cf.Pures {
+				if q.Name == pf.Name && q.Pkg == pf.Pkg {
+					return nil, perr(l, fmt.Errorf("spec function %s declared twice (first at line %d)", pf.Name, q.Line))
+				}
+			}
 			cf.Pures = append(cf.Pures, pf)
 			cur = nil
 		case "ghost":
